@@ -295,7 +295,8 @@ pub fn rand_op(rng: &mut Rng) -> Op {
         }
         9 | 10 => Op::Zeros(match rng.below(4) { 0 => 0, 1 => rng.below(9) as usize, 2 => rng.below(70) as usize, _ => rng.below(300) as usize }),
         _ => {
-            let n = rng.below(5) as usize;
+            // aligned byte slices: short ones, and ones spanning one or several 64-bit storage words
+            let n = match rng.below(4) { 0 | 1 => rng.below(5) as usize, 2 => 5 + rng.below(16) as usize, _ => 8 * (1 + rng.below(5) as usize) + rng.below(2) as usize };
             Op::Bytes((0..n).map(|_| rng.next() as u8).collect())
         }
     }
@@ -337,6 +338,17 @@ pub fn generate(seed: u64, cases: usize, exhaustive: bool, out: &mut dyn FnMut(S
         }
     }
     if exhaustive {
+        // aligned byte slices of every interesting length at every offset (the cursor is byte aligned but
+        // mostly not word aligned after the implied padding), followed by more bits
+        for offset in 0..64usize {
+            for &len in &[0usize, 1, 7, 8, 9, 15, 16, 17, 33] {
+                let bytes: Vec<u8> = (0..len).map(|j| (0x81 + 37 * j + offset) as u8).collect();
+                for kind in ["byte", "word", "user"] {
+                    out(run_record(&format!("ex-{offset}-b{len}-{kind}"), kind, &[Op::Lsbs(64, u64::MAX, offset), Op::Bytes(bytes.clone()), Op::Lsbs(16, 0xA5C3, 11), Op::Bytes(bytes.clone()), Op::Zeros(3)]));
+                    n += 1;
+                }
+            }
+        }
         out(format!("#exhaustive sink sweep offset=0..63 width=8,16,32,64 n=0..=width kinds=lsbs,msbs,twoc,write,zeros sinks=byte,word,user records={n}"));
     }
     for i in 0..cases {
